@@ -21,6 +21,7 @@ from genlib import *
 
 LEAN_MODULES = ["MpirProofs.Props.C02_dcappr"]
 THEOREMS = ["Mpir.DcDivappr." + t for t in """
+dcDivappr_floor2_small dcDivappr_floor2 dcDivappr_far_off
 """.split()]
 PINS = [("mpn/generic/dc_divappr_q.c", None), ("mpn/generic/sb_divappr_q.c", "__divappr_helper")]
 TRUSTED = ["hand-written value-level model lean/Mpir/Model/DcDivappr.lean of mpn_dc_divappr_q (limb areas as naturals with explicit "
@@ -65,9 +66,27 @@ def _quots(rng, qn, dn):
     if sh >= 2: out.append(mk(P(sh - 1), 0))
     return out
 
+def floor2_operands(n, Qh, nu=0):
+    """The recipe of Props/C02_dcappr.lean (dcDivappr_floor2): window of 2n+1 limbs, divisor of n+1 limbs, on which the low-half
+    sub-call takes the 'rare case' :78-81 with a remainder that carries the neglected products: quotient two too large."""
+    sh = n // 2; sl = n - sh
+    D = (P(sh + 1) - 1) + P(n) // 2
+    Qh %= P(sh)
+    E = sum(((Qh >> (64 * j)) % B) * (D % P(sh - 1 - j)) * P(sl + j) for j in range(sh))
+    return Qh * P(sl) * D + P(n + sl + 1) // 2 + nu - E, D
+
 def gen_ops(rng, tier, ctx=None):
     quick = tier == "quick"
     T, C = params(ctx)
+    # the finding (known_findings.json: the model answers with `!modelspec`, the real function returns the same limbs):
+    # n = 2C is the smallest size with a recursive low half; at n = 4C the defective call is the high half of the outer level
+    for n in ([2 * C] if quick else [2 * C, 2 * C + 1, 2 * C + 5]):
+        for Qh in [7, rng.getrandbits(64 * (n // 2))]:
+            W, D = floor2_operands(n, Qh, rng.choice([0, rng.getrandbits(64 * n)]))
+            yield "dc_divappr_q_model %x %x %s %s" % (T, C, vec(limbs_of(W, 2 * n + 1)), vec(limbs_of(D, n + 1)))
+            if Qh == 7 or not quick:
+                m = 2 * n; D2 = D * P(n) + (P(n) - 1); W2 = W * P(2 * n)
+                yield "dc_divappr_q_model %x %x %s %s" % (T, C, vec(limbs_of(W2, 2 * m + 1)), vec(limbs_of(D2, m + 1)))
     def emit(nn, dn, N, D):
         if 0 <= N < P(nn) * 1 and P(dn) // 2 <= D < P(dn) and N < 2 * D * P(nn - dn):
             yield "dc_divappr_q_model %x %x %s %s" % (T, C, vec(limbs_of(N, nn)), vec(limbs_of(D, dn)))
@@ -78,19 +97,22 @@ def gen_ops(rng, tier, ctx=None):
         qns = [3, 4, 5, dn // 2, dn - 3, dn - 2, dn - 1, dn, dn + 1, dn + 2, dn + 3, 2 * dn - 2, 2 * dn - 1, 2 * dn, 2 * dn + 1, 3 * dn + 1, dn + T, dn + T + 1, 2 * dn + T]
         if quick and big: qns = [3, dn // 2, dn - 2, dn - 1, dn, dn + 3, 2 * dn - 1, 2 * dn + 1, dn + T + 1]
         if quick and dn > 2 * C + 2: qns = [dn - 2, dn - 1, dn + 2]
+        if not quick and dn > 2 * C + 2: qns = [3, dn // 2, dn - 2, dn - 1, dn, dn + 2, 2 * dn + 1]
         for qn in sorted(set(q for q in qns if q >= 3)):
             nn = dn + qn
             for di, D in enumerate(_divisors(rng, dn, quick)):
                 qs = _quots(rng, qn, dn)
-                if quick and (big or di >= 2): qs = [q for i, q in enumerate(qs) if (i + di + qn) % (4 if big else 2) == 0]
+                if quick: qs = [q for i, q in enumerate(qs) if (i + di + qn) % (8 if big else 3) == 0]
+                elif dn > 2 * C + 2: qs = [q for i, q in enumerate(qs) if (i + di + qn) % 3 == 0]
                 for Q in qs:
                     R = rng.choice([0, D - 1, rng.randrange(D)])
                     yield from emit(nn, dn, Q * D + R, D)
                     yield from emit(nn, dn, Q * D - 1, D)
-                    if not (quick and big): yield from emit(nn, dn, Q * D + D - 1, D)
+                    if not quick: yield from emit(nn, dn, Q * D + D - 1, D)
                 yield from emit(nn, dn, P(qn) * D - 1, D)
-                yield from emit(nn, dn, P(qn) * D - rng.getrandbits(64), D)
-                yield from emit(nn, dn, P(qn) * D - P(qn - 1), D)
+                if not quick or (di + qn) % 2:
+                    yield from emit(nn, dn, P(qn) * D - rng.getrandbits(64), D)
+                    yield from emit(nn, dn, P(qn) * D - P(qn - 1), D)
                 yield from emit(nn, dn, P(qn) * D + rng.getrandbits(64 * qn), D)       # qh = 1
                 yield from emit(nn, dn, rng.getrandbits(64 * nn), D)
             yield from emit(nn, dn, P(nn) - 1, P(dn) - 1)
